@@ -597,7 +597,12 @@ class Exec:
                                           pc_head=[str(z3.simplify(c))[:160] for c in st.pc[:3]]))
             except Violation as v:
                 if v.st is None: v.st = st
-                if v.model is None and v.kind not in ('inconclusive', 'bound', 'unsupported'): v.model = s.sat(st)
+                if v.model is None and v.kind not in ('inconclusive', 'bound', 'unsupported'):
+                    # the path may have been entered through an undecided (relaxed) feasibility test: a violation needs a model of the full path condition
+                    try: v.model = s.sat(v.st)
+                    except Violation as v2: return ('VIOLATION', v2, results)
+                    if v.model is None:
+                        s.stats['paths'] += 1; results.append('infeasible'); continue
                 return ('VIOLATION', v, results)
         return ('OK', None, results)
 
@@ -1063,6 +1068,22 @@ class Exec:
             c = s.icmp(st, 'slt', x['ty'], a[0], 0)
             neg = s.binop(st, 'sub', x['ty'], 0, a[0])
             return s.ite(c, neg, a[0], x['ty']) if not isinstance(c, bool) else (neg if c else a[0])
+        mm = re.match(r'llvm\.(ctlz|cttz|ctpop)\.i(\d+)', name)
+        if mm:
+            w = int(mm.group(2)); v = a[0]
+            if isc(v):
+                if mm.group(1) == 'ctpop': return bin(v).count('1')
+                if v == 0: return w
+                return (w - v.bit_length()) if mm.group(1) == 'ctlz' else ((v & -v).bit_length() - 1)
+            res = z3.BitVecVal(w, w)
+            rng = range(w) if mm.group(1) == 'ctlz' else range(w - 1, -1, -1)     # last assignment wins: highest (ctlz) / lowest (cttz) set bit
+            if mm.group(1) == 'ctpop':
+                res = z3.BitVecVal(0, w)
+                for i in range(w): res = res + z3.ZeroExt(w - 1, z3.Extract(i, i, v))
+                return z3.simplify(res)
+            for i in rng:
+                res = z3.If(z3.Extract(i, i, v) == 1, z3.BitVecVal((w - 1 - i) if mm.group(1) == 'ctlz' else i, w), res)
+            return z3.simplify(res)
         mm = re.match(r'llvm\.(smax|smin|umax|umin)\.i(\d+)', name)
         if mm:
             c = s.icmp(st, {'smax': 'sgt', 'smin': 'slt', 'umax': 'ugt', 'umin': 'ult'}[mm.group(1)], x['ty'], a[0], a[1])
